@@ -11,8 +11,12 @@ from .shapes import root, SELF
 from .terms import subterms
 
 CELL = "atomic_refcell::AtomicRefCell"
-READ_API = set(["get", "contains_key", "is_empty", "len", "deref"])
-MUT_API = READ_API | set(["insert", "remove", "entry", "get_mut", "deref_mut"])
+READ_API = set(["get", "contains_key", "is_empty", "len", "deref", "keys", "capacity"])   # `keys` hands out ids, no cell
+# through an exclusive World reference nobody else can be looking: what the property needs there is only that nothing is
+# handed out that outlives the reference without going through a cell (checked on the cells); which map operation is used
+# is not its business (what may be *stored* is C09's: insert / entry / extend are decided there)
+MUT_API = READ_API | set(["insert", "remove", "entry", "get_mut", "deref_mut", "clear", "retain", "drain", "remove_entry", "shrink_to_fit", "reserve",
+                          "iter", "iter_mut", "keys", "values", "values_mut", "capacity"])
 SHARED_BORROWS = set(["borrow", "try_borrow"])
 EXCL_BORROWS = set(["borrow_mut", "try_borrow_mut"])
 
